@@ -61,7 +61,7 @@ def compare(case, go, m):
 
 def correspond(ctx, C):
     st = S.SpecStats()
-    rows = S.run(ctx, C, "spec", 256, 20000)
+    rows = S.run(ctx, C, "speccat", 128, 1280) + S.run(ctx, C, "spec", 256, 20000)
     viol, ties = [], []
     compared = 0
     for r in rows:
